@@ -53,3 +53,7 @@ pub mod skel;
 pub mod c14;
 pub mod c19;
 pub mod c11;
+// ---------------------------------------------------------------------------
+// data updating (C08)
+// ---------------------------------------------------------------------------
+pub mod c08;
